@@ -496,7 +496,16 @@ def r11_a(ctx):
     fd = repo.need_func('reader.read_skip_env')
     noreturn = _noreturn_funcs(repo)
     reach = cg.reachable([fd])
-    readers = [f for f in reach if f.module.name == 'reader' and f is not fd and f.name not in noreturn]
+    def moves_cursor(f):
+        # a parsing function advances the cursor itself (helpers that only build a message or test a prefix do not)
+        for n in ast.walk(f.node):
+            if isinstance(n, ast.Call):
+                if isinstance(n.func, ast.Attribute) and n.func.attr in ('forward', 'forward_until', 'backward', '__next__'):
+                    return True
+                if isinstance(n.func, ast.Name) and n.func.id == 'next':
+                    return True
+        return False
+    readers = [f for f in reach if f.module.name == 'reader' and f is not fd and f.name not in noreturn and moves_cursor(f)]
     tok = [f for f in reach if f.module.name in ('tokens', 'category') and f.name not in ('token',)]
     rr.ob(not readers and not tok, {'reachable_functions': len(reach), 'reader_functions_reached': [f.qual for f in readers]})
     for f in readers + tok:
